@@ -154,6 +154,8 @@ pub enum ParamSetError {
     /// A _sequence parameter set_ found within the AVC decoder config was not consistent with the
     /// settings of the decoder config itself
     IncompatibleSps(SeqParameterSet),
+    /// A parameter set with a declared length of zero, which has no NAL header to inspect
+    EmptyNal,
 }
 
 struct ParamSetIter<'buf>(&'buf [u8], UnitType);
@@ -171,6 +173,9 @@ impl<'buf> Iterator for ParamSetIter<'buf> {
             None
         } else {
             let len = u16::from(self.0[0]) << 8 | u16::from(self.0[1]);
+            if len == 0 {
+                return Some(Err(ParamSetError::EmptyNal));
+            }
             let data = &self.0[2..];
             let res = match NalHeader::new(data[0]) {
                 Ok(nal_header) => {
